@@ -23,9 +23,14 @@ char *reg_get(int c, int *lnmode)
 		c = 0;
 	if (c == ';') {
 		char *s = lbuf_get(xb, xrow);
+		int n;
 		snprintf(ln, sizeof(ln), "%s", s ? s : "");
 		if (strchr(ln, '\n') != NULL)
 			*strchr(ln, '\n') = '\0';
+		/* a long line is cut at the size of ln: not inside a character */
+		n = strlen(ln);
+		if (n && uc_beg(ln, ln + n - 1) + uc_len(uc_beg(ln, ln + n - 1)) > ln + n)
+			*uc_beg(ln, ln + n - 1) = '\0';
 		if (lnmode != NULL)
 			*lnmode = 1;
 		return ln;
